@@ -1562,8 +1562,10 @@ func convertFuncCall(n *nodes.FuncCall) *ast.FuncCall {
 	}
 	fn, err := parseFuncName(n.Funcname)
 	if err != nil {
-		// TODO: How should we handle errors?
-		panic(err)
+		// A name with more than three parts names no function. Keep it whole,
+		// so that the lookup fails with the usual "function ... does not
+		// exist" diagnostic instead of a panic.
+		fn = &ast.FuncName{Name: join(n.Funcname, ".")}
 	}
 	return &ast.FuncCall{
 		Func:           fn,
